@@ -396,17 +396,22 @@ func directCases(cfg vhlib.Config, sum *vhlib.Summary, rng *vhlib.Rng) {
 		negate := rng.Chance(25)
 		wildCol := rng.Bool()
 		rot := metadata.VerifC03DoCmiChecks(writer.VerifC03Containers(blocks), false, "c", wildCol, "", 0, keys, orig, and, wildVal, negate)
-		unrot := writer.VerifC03UnrotatedBloom(blocks, []string{"c", "num"}, keys, orig, and)
-		if wildVal {
-			// DoCMICheckForUnrotated skips the bloom for wildcard values: every block stays
-			unrot = map[uint16]bool{}
-			for b := 0; b < nb; b++ {
-				unrot[uint16(b)] = true
-			}
+		ucol := "c"
+		if wildCol {
+			ucol = "*"
 		}
-		// property on the real function: a negated or wildcard query must never lose a block to the bloom (rotated segments)
+		// the whole decision of an open segment: DoCMICheckForUnrotated
+		unrot := writer.VerifC03UnrotatedText(blocks, ucol, keys, orig, and, wildVal, negate)
+		// property on the real functions: a negated or wildcard query must never lose a block to the bloom
 		if negate || wildVal {
 			for b := 0; b < nb; b++ {
+				if !unrot[uint16(b)] {
+					cls := "negated_or_wildcard_query_pruned_by_bloom"
+					if negate && !wildVal {
+						cls = "open_negated_freetext_bloom_pruned"
+					}
+					sum.Fail(cls, fmt.Sprintf("DoCMICheckForUnrotated(negate=%v, wildcardValue=%v, keys=%v, and=%v, column=%s) dropped block %d of %v of an open segment", negate, wildVal, keys, and, ucol, b, bcoq), map[string]interface{}{"blocks": bcoq, "keys": fmt.Sprint(keys), "negate": negate, "wildcard_value": wildVal, "segment": "open"})
+				}
 				if !rot[uint16(b)] {
 					sum.Fail("negated_or_wildcard_query_pruned_by_bloom", fmt.Sprintf("doCmiChecks(negate=%v, wildcardValue=%v, keys=%v, and=%v, wildcardCol=%v) dropped block %d of %v", negate, wildVal, keys, and, wildCol, b, bcoq), map[string]interface{}{"blocks": bcoq, "keys": fmt.Sprint(keys), "negate": negate, "wildcard_value": wildVal})
 				}
